@@ -99,6 +99,10 @@ def pts_bytes(tier):
         for n in range(0, B // 32 + 2):
             for d in ('zero', 'ff', 'exp', 'exp2', 'exp3'):
                 pts.append((a, n, d))
+        # long messages: 5, 8, 16, 17, 33 (thorough also 64, 65, 129) blocks, just below / at / above the block boundary
+        for k in (5, 8, 16, 17, 33) + ((64, 65, 129) if tier == 'thorough' else ()):
+            for dn in (-1, 0, 1) + ((-(cs // 8) - 1, -(cs // 8)) if tier == 'thorough' else ()):
+                pts.append((a, k * B // 8 + dn, 'exp'))
     return pts
 
 
@@ -200,7 +204,7 @@ def subchecks():
         Sub('bit-lengths', pts_lengths, run_lengths, engine='P',
             bound='10 algorithms x every bit length 1..2B+cs+16 x 3 data patterns (quick: +-9 bits around 0, B-cs-1, B, 2B-cs-1, 2B, one pattern)'),
         Sub('byte-lengths', pts_bytes, run_bytes, engine='P',
-            bound='every byte length 0..4 blocks+1 (quick 0..2 blocks+9) with the ramp; 5 more patterns at 0..B/32+1 bytes; with and without bitlen=8n'),
+            bound='every byte length 0..4 blocks+1 (quick 0..2 blocks+9) with the ramp; 5 more patterns at 0..B/32+1 bytes; long messages of 5, 8, 16, 17, 33 (thorough 64, 65, 129) blocks -1/0/+1 byte; with and without bitlen=8n'),
         Sub('container', pts_container, run_container, engine='P',
             bound='bit length L near every boundary, container 1 byte / 1 block longer than ceil(L/8)'),
         Sub('reject', pts_reject, run_reject, engine='P', bound='bitlen = 8|M| + {1,7,8,B} for |M| in {0,1,B/8-cs/8,B/8}'),
